@@ -413,7 +413,14 @@ func (u *Update) Apply(item val.Item, values val.Item) UResult {
 		}
 	}
 	// apply list removals (original indices), highest index first per parent
-	sort.Slice(listRemovals, func(i, j int) bool { return listRemovals[i].idx > listRemovals[j].idx })
+	// deeper parents first (removing l[2][0] must not be disturbed by the removal of l[0], which shifts l[2]),
+	// and within one list the highest index first
+	sort.SliceStable(listRemovals, func(i, j int) bool {
+		if len(listRemovals[i].parent) != len(listRemovals[j].parent) {
+			return len(listRemovals[i].parent) > len(listRemovals[j].parent)
+		}
+		return listRemovals[i].idx > listRemovals[j].idx
+	})
 	for _, r := range listRemovals {
 		parent, ok := r.parent.Resolve(work)
 		if !ok || parent.K != val.KL {
